@@ -521,7 +521,7 @@ func init() {
 			case 6:
 				return &t_api.Request{Kind: t_api.ReadSchedule, ReadSchedule: &t_api.ReadScheduleRequest{Id: id}}
 			case 7:
-				return &t_api.Request{Kind: t_api.SearchSchedules, SearchSchedules: &t_api.SearchSchedulesRequest{Id: pick(r, []string{"*", "s1*"}), Tags: pick(r, []map[string]string{nil, {"a": "1"}}), Limit: 1 + r.intn(2)}}
+				return &t_api.Request{Kind: t_api.SearchSchedules, SearchSchedules: &t_api.SearchSchedulesRequest{Id: pick(r, []string{"*", "s1*", "s_", "s_*", "*_", "S1", "%1"}), Tags: pick(r, []map[string]string{nil, {"a": "1"}}), Limit: 1 + r.intn(2)}}
 			default:
 				// a user creating a promise id that a firing may produce
 				ts := (w.now/1000 + int64(r.intn(3))) * 1000
